@@ -4,8 +4,8 @@ import build_common as bc
 
 ID = "C05"
 LEVEL = "other"
-COQ_TARGETS = ["Props/Properties_C05.vo", "Extract/ExtractBuild.vo"]
-PROPS_FILES = ["Props/Properties_C05.v"]
+COQ_TARGETS = ["Props/Properties_C05.vo", "Props/Properties_C05_spec.vo", "Extract/ExtractBuild.vo"]
+PROPS_FILES = ["Props/Properties_C05.v", "Props/Properties_C05_spec.v"]
 RUNS = [dict(name="valid", harness="c04", driver="build", model_ml="build_model", harness_args=["-mode", "c05"])]
 EXPLANATION = ("Strict validity predicate valid_message (Coq, from the encoding document, independent of the reader model) and a spec-style tree decoder are executed on the bytes Message.Marshal produced for every generated program and compared with the library's own tree and the written value tree; theorems: allocation half of heap_inv and its preservation by all pointer-writing ops, pointer resolution.")
 TRUSTED = ["models coq/Core/Builder.v (alloc, arenas, nextAlloc, constructors, setters, writePtr, copyStruct), coq/Core/BuildOps.v "
@@ -22,7 +22,7 @@ ASSUMPTIONS = ["64-bit int; segments < 2^32 bytes, segment count < 2^32; bytes a
                "a failed pointer-writing / allocating op ends the compared run (the model keeps no state for a failed op)",
                "fuel of write_ptr/copy_struct: theorems are about Ok results, which are never produced by fuel exhaustion"]
 TECHNIQUE = "Coq proof over an executable model + extracted-model/implementation differential run"
-LEVEL_TEXT = ('Partial proof + differential run. Proved for all arenas/capacities: allocated regions are zeroed, aligned, inside len<=cap and pairwise disjoint; segments stay word aligned and only grow under SetPtr/Set/SetRoot/SetStruct/CopyFrom with all copy branches; every placed pointer resolves with well-formed landing pads; heap_inv_partial: an invariant over all op lists of the interpreter (well-formed segments + sound handle pool) in every reachable state. The full heap_inv (every reachable state satisfies valid_message) is checked by executing the extracted valid_message + spec tree on the real Marshal bytes of every program.')
+LEVEL_TEXT = ('Partial proof + differential run. Proved for all arenas/capacities: allocated regions are zeroed, aligned, inside len<=cap and pairwise disjoint; segments stay word aligned and only grow under SetPtr/Set/SetRoot/SetStruct/CopyFrom with all copy branches; every placed pointer resolves with well-formed landing pads; placed_struct_is_spec_valid: the struct pointer just written is resolved by the specification decoder (coq/Spec) to exactly its target, inside the message; heap_inv_partial: an invariant over all op lists of the interpreter (well-formed segments + sound handle pool) in every reachable state. The full heap_inv (every reachable state satisfies valid_message) is checked by executing the extracted valid_message + spec tree on the real Marshal bytes of every program.')
 LEVEL_NOTE = ("Missing for level proof: heap_inv as an invariant over op lists implying valid_message = VOk (needs the abstract object table of builder_refines); marshal_header_ok is C14's.")
 DESIGN_REF = "DESIGN.md section 6, C05"
 
